@@ -503,6 +503,24 @@ fn sanitize_destination_path(dest: &Path) -> Result<&Path, std::io::Error> {
         })
 }
 
+/// return whether a (relative) file name stays within the directory it's joined to
+/// (same logic as zip enclosed_name)
+fn is_enclosed_name(name: &str) -> bool {
+    let mut depth = 0usize;
+    for component in Path::new(name).components() {
+        match component {
+            std::path::Component::Prefix(_) | std::path::Component::RootDir => return false,
+            std::path::Component::ParentDir => match depth.checked_sub(1) {
+                Some(d) => depth = d,
+                None => return false,
+            },
+            std::path::Component::Normal(_) => depth += 1,
+            std::path::Component::CurDir => (),
+        }
+    }
+    true
+}
+
 /// extract all files from the archive to a target directory
 ///
 /// # Arguments
@@ -535,7 +553,8 @@ pub fn extract_to_dir<RS: Read + Seek + HasLength>(
                 &file
             };
             let target_file = target_dir.join(new_file_name);
-            if !target_file.exists() {
+            // names leading outside of target_dir are never extracted so don't report them as existing
+            if !target_file.exists() || !is_enclosed_name(new_file_name) {
                 files_filter.push(file); // need the unmapped name here
             } else {
                 extracted.push(new_file_name.into());
